@@ -138,20 +138,34 @@ impl PieceType for Pawn {
             let files = chess_lookup::ADJACENT_FILES[ep_file];
             let dest_rank = board.turn.enpassant_capture_rank();
             let dest = BitBoard::from(Pos::new(ep_file, dest_rank));
-            let capture_pawn = Pos::new(ep_file, rank);
+            let capture_pawn = BitBoard::from(Pos::new(ep_file, rank));
 
-            // if the opponent's pawn is checking the king (and the only piece checking the king)
-            // or if the there is no check and the opponent's pawn doesn't block a check against our king
-            // then we can capture it via en-passant with any unpinned pawn on the same rank and adjacent file as the
-            // opponent's pawn
-            if check_mask.contains(capture_pawn) && !board.pinned.contains(capture_pawn) {
-                for src in BitBoard::from(rank) & files & pieces & !board.pinned {
-                    unsafe {
-                        movelist.push_unchecked(LegalMovesAt {
-                            src,
-                            moves: dest,
-                            promotion: false,
-                        });
+            // a knight or another pawn giving check cannot be answered by capturing en-passant
+            let their_pieces = board.raw[!board.turn] - capture_pawn;
+            let other_checkers = board.checkers
+                & (board.raw[Piece::Knight] | board.raw[Piece::Pawn])
+                & their_pieces;
+
+            if other_checkers.none() {
+                let queens = board.raw[Piece::Queen];
+                let rooks = (board.raw[Piece::Rook] | queens) & their_pieces;
+                let bishops = (board.raw[Piece::Bishop] | queens) & their_pieces;
+
+                for src in BitBoard::from(rank) & files & pieces {
+                    // the capture is legal iff no slider sees our king once both pawns
+                    // have left their squares and the capturing pawn stands on `dest`
+                    let occupied = (combined - BitBoard::from(src) - capture_pawn) | dest;
+                    let attackers = (chess_lookup::rook_moves(king_sq, occupied) & rooks)
+                        | (chess_lookup::bishop_moves(king_sq, occupied) & bishops);
+
+                    if attackers.none() {
+                        unsafe {
+                            movelist.push_unchecked(LegalMovesAt {
+                                src,
+                                moves: dest,
+                                promotion: false,
+                            });
+                        }
                     }
                 }
             }
